@@ -130,6 +130,24 @@ CHECK_DEADLOCK FALSE
         c.sample(dict(kind="shared component script", steps=r.printed[len(r.printed) // 2]))
         c.log("shared component: %d scripts replayed, %d mismatches" % (len(r.printed), len(res.get("mismatches") or [])))
 
+    # 4b. shared component under concurrency: the component reports from its own goroutine while a second instance attaches
+    if not c.replay:
+        rounds = c.pick(20000, 100000)
+        tr = os.path.join(c.work, "sharedconc.ndjson")
+        c.run([binp, "sharedconc", str(c.seed), str(rounds), tr], timeout=900)
+        r = c.tlc("StatusFSM", "SharedConcTrace", cfg="SharedConcTrace.cfg", workers=1, files={"observed.ndjson": tr}, timeout=900,
+                  count=False, label="sharedconc", heap="8g")
+        if not r.ok:
+            raise vlib.Inconclusive("shared-component concurrency monitor failed: %s %s" % (r.error, r.out[-1500:]))
+        for v in r.printed[:3]:
+            c.violation("shared component under concurrency: the late-attached instance was not handed the history up to one point of the "
+                        "report sequence followed by every later report in order: reported %s, first instance got %s, late instance got %s"
+                        % (v["r"], v["q1"], v["q2"]), replay_obj=dict(kind="sharedconc", round=v))
+        c.extra["sharedconc_unexplained_rounds"] = len(r.printed)
+        c.traces_validated += rounds
+        total += rounds
+        c.log("shared component, concurrent attach: %d rounds, %d unexplained" % (rounds, len(r.printed)))
+
     # 5. service level: a real service (graph.go, host.go, extensions.go) with components reporting from their own goroutines;
     #    every event delivered to a StatusWatcher extension must be a legal step of its instance's state machine
     if not c.replay:
